@@ -149,6 +149,44 @@ theorem C15_convergence_keeps_committed {cfg : Config} (hnd : cfg.voterIds.Nodup
       simp only at this
       omega
 
+/-- The same for ANY committed prefix (not only what a node's commit index says right now — a crash
+    resets that): whatever was committed in the state the continuation starts from is a prefix of the
+    common log at its end. -/
+theorem C15_convergence_keeps_all_committed {cfg : Config} (hnd : cfg.voterIds.Nodup) (hne : cfg.voterIds ≠ []) {s : Repl.AState}
+    (hr : Repl.Reachable cfg s) :
+    ∃ s' l, Repl.ReachableFrom cfg s s' ∧ (s'.nodes l).role = .leader ∧
+      (∀ v, cfg.isVoter v = true → (s'.nodes v).log = (s'.nodes l).log ∧ (s'.nodes v).commit = (s'.nodes l).log.length) ∧
+      ∀ b P, Repl.IsCommitted cfg s b P → P <+: (s'.nodes l).log := by
+  obtain ⟨s', l, T, hf, hv, hl, _, hTgt, hlog, hall⟩ := Repl.progress_possible hnd hne hr
+  refine ⟨s', l, hf, hl, fun v h => ⟨(hall v h).1, (hall v h).2.1⟩, ?_⟩
+  intro b P hP
+  have hcl := (hall l hv).2.1
+  have hr' := Repl.reachable_trans hr hf
+  have hi' := Repl.inv_reachable hnd hr'
+  have hi := Repl.inv_reachable hnd hr
+  have hP' := Repl.committed_stable hnd hr hf hP
+  have hL := (hi'.commit_ok l).2
+  rw [hcl, List.take_length] at hL
+  rcases Repl.committed_comparable hnd hr' hP' hL with h | h
+  · exact h
+  · exfalso
+    have heT : (⟨T, 0⟩ : Repl.AEntry) ∈ P := h.subset (by rw [hlog]; simp)
+    rcases hP with h0 | ⟨i, t, c0, g0, _, hg0, _, _, _, ⟨Q, hQ, hQa⟩, hp⟩
+    · rw [h0] at heT; simp at heT
+    · have hQpos : 0 < Q.length := by
+        have := hQ.2.2
+        unfold Config.hasQuorum at this
+        simp only [decide_eq_true_eq] at this
+        omega
+      obtain ⟨m, hm⟩ := List.exists_mem_of_length_pos hQpos
+      obtain ⟨j, _, hack⟩ := hQa m hm
+      have ht1 := (hi.ack_ok m j t hack).1
+      have ht2 := hTgt m (hQ.2.1 m hm)
+      have he : (⟨T, 0⟩ : Repl.AEntry) ∈ g0 := List.mem_of_mem_take (hp.subset heT)
+      have := (hi.glog_shape t c0 g0 hg0).1 _ he
+      simp only at this
+      omega
+
 /-- Non-vacuity: the example run of Proofs/ReplExample.lean (three voters, node 3 behind). -/
 example : ∃ s' l T, Repl.ReachableFrom Repl.cfg3 Repl.s7 s' ∧ (s'.nodes l).role = .leader ∧ (s'.nodes l).term = T ∧
     (s'.nodes 3).log = (s'.nodes l).log ∧ (s'.nodes 3).commit = (s'.nodes l).log.length := by
